@@ -61,7 +61,7 @@ class C11:
     rule = (
         "cases = random scope programs nesting up to 4 of {swap(k=v), swap(k=DELETE_VAR), swap(dict), swap(overlay=dict), `$K=v cmd` prefix executed through the Execer with a "
         "threaded recording alias} over overlapping keys from {explicitly set, default-valued but unset, callable-default, unknown, pattern-typed}, with inner set/del/in-place mutation of other "
-        "variables and exits by return or exception; single-threaded and 2-4 concurrent threads under seeded delay injection on Env.swap/_set_item/_del_item/detype and InternalEnvironDict; "
+        "variables and exits by return or exception; single-threaded and 2-4 concurrent threads under seeded delay injection on Env.swap/_set_item/_del_item/detype and InternalEnvironDict; session programs with alias threads that start late (held at the first statement of ProcProxyThread.run) and live !() objects created inside a scope the spawner leaves at once; directed schedule on the return of Env.detype; "
         "distinct_nontrivial = distinct (scope kinds, key classes, mask pattern, exit kind, thread count) shapes with nesting depth >= 2 or more than one thread"
     )
     assumptions = [
